@@ -1,7 +1,8 @@
 // Command proxy is the correspondence + oracle runner for C20 (goproxytest serves exactly the
 // modules stored in its directory).  For every generated module directory it starts a real
 // goproxytest.Server on 127.0.0.1, fetches list/info/mod/zip for every stored module version
-// and for not-stored / malformed URLs, decodes zips with archive/zip, and
+// and for not-stored / malformed URLs, decodes zips with archive/zip (and checks them with an independent container reader and by
+// re-serialising them), and
 //   - compares every response with the extracted Coq model (kind "correspondence"),
 //   - evaluates the property directly with oracles that do not use the model (kind "impl-violation"):
 //     info/mod byte-identical to the stored files, zip entries = the stored non-dot files under
@@ -18,6 +19,7 @@ import (
 	"bytes"
 	"encoding/json"
 	"fmt"
+	"hash/crc32"
 	"io"
 	"log"
 	"net/http"
@@ -92,6 +94,8 @@ func (mc *modelConn) answerNeed(need string) string {
 		return fmt.Sprintf("oracle lt %s %s %s", f[2], f[3], b01(semver.Compare(k1, string(common.UnHex(f[3]))) < 0))
 	case "is":
 		return fmt.Sprintf("oracle is %s %s", f[2], hx(infoShort([]byte(k1))))
+	case "crc":
+		return fmt.Sprintf("oracle crc %s %d", f[2], crc32.ChecksumIEEE([]byte(k1)))
 	}
 	return "oracle-unknown"
 }
@@ -440,6 +444,12 @@ func (td *TestDir) checkStored(m *Mod, ext string, r resp) string {
 		if r.Status != 200 || !r.ZipOK {
 			return fmt.Sprintf("zip response status %d, valid zip %v", r.Status, r.ZipOK)
 		}
+		if msg := validZip(r.Body, nil); msg != "" {
+			return "the zip response is not a valid zip: " + msg
+		}
+		if std, err := cdFromStd(r.Body); err != nil || showCD(sortedCD(std)) != showCD(m.wantCD()) {
+			return fmt.Sprintf("central directory %s, want (sorted by name) %s", showCD(sortedCD(std)), showCD(m.wantCD()))
+		}
 		if !sameEntries(sortedEntries(r.Entries), m.wantZip()) {
 			return fmt.Sprintf("zip entries %s differ from the stored non-dot files %s", showEntries(sortedEntries(r.Entries)), showEntries(m.wantZip()))
 		}
@@ -768,6 +778,32 @@ func (rn *runner) evalDir(td *TestDir, seed uint64, only *request, report bool) 
 		return fails
 	}
 	modelStarts := mans[1] != "err"
+	// every x/mod decision the model took for this directory, against x/mod itself
+	for _, fl := range rn.checkXlog(mc) {
+		fail(fl.kind, fl.oracle, "", fl.model, fl.impl, fl.detail)
+	}
+	// some directories are answered a second time from oracle tables (x/mod's own answers)
+	// instead of the Gallina x/mod: the two modes must give the same responses
+	if only == nil && td.idx%6 == 0 {
+		mc.ask1("mode tables")
+		tans, err := mc.ask(mreqs)
+		mc.ask1("mode xmod")
+		if err == nil {
+			if report {
+				rn.count("directory-also-answered-from-oracle-tables")
+			}
+			for i := range tans {
+				if tans[i] != mans[i] {
+					u := ""
+					if i >= 2 {
+						u = reqs[i-2].URL
+					}
+					fail("correspondence", "xmod-vs-tables", u, clip([]byte(mans[i])), clip([]byte(tans[i])), "the model answers differently with its own x/mod functions (Model) and with x/mod's answers as oracle tables (Impl)")
+					break
+				}
+			}
+		}
+	}
 	// the sequential phase runs on ONE server: the model's answers for it are those of one server
 	// answering the requests in the same order (the zip cache keeps the first caller's value, which
 	// matters when two names alias one archive, i.e. with "_"); [mans] (fresh server per request)
@@ -823,6 +859,28 @@ func (rn *runner) evalDir(td *TestDir, seed uint64, only *request, report bool) 
 	srv.Close()
 	addT(&tSeq, time.Since(t1))
 
+	// the central directory of every zip response: as the model derives it (names, order, method,
+	// flags, CRC-32 as oracle, sizes) and as archive/zip reads it
+	modelCD := map[int]string{}
+	if modelStarts {
+		var idx []int
+		var cdreqs []string
+		for i, q := range reqs {
+			if sendable(q.URL) && impl[i].IsZip && impl[i].ZipOK && seqAns[i] == mans[2+i] {
+				idx = append(idx, i)
+				cdreqs = append(cdreqs, "cd "+hx(q.URL))
+			}
+		}
+		if len(cdreqs) > 0 {
+			t0 = time.Now()
+			if ans, err := mc.ask(cdreqs); err == nil {
+				for j, i := range idx {
+					modelCD[i] = ans[j]
+				}
+			}
+			addT(&tModel, time.Since(t0))
+		}
+	}
 	aliasSeen := false
 	for i, q := range reqs {
 		if !sendable(q.URL) {
@@ -854,6 +912,19 @@ func (rn *runner) evalDir(td *TestDir, seed uint64, only *request, report bool) 
 		}
 		if report && modelStarts && seqAns[i] != mans[2+i] {
 			rn.count("history-dependent-response(aliasing)")
+		}
+		if impl[i].IsZip && impl[i].Err == "" {
+			if report {
+				rn.count("zip-validity-checked")
+			}
+			if msg := validZip(impl[i].Body, nil); msg != "" {
+				fail("impl-violation", "zip-valid/"+q.Class, q.URL, "", clip([]byte(ob)), "a 200 response to a .zip request is not a valid zip: "+msg)
+			}
+			if want, ok := modelCD[i]; ok {
+				if std, err := cdFromStd(impl[i].Body); err == nil && showCD(std) != want {
+					fail("correspondence", "central-directory:"+q.Class, q.URL, clip([]byte(want)), clip([]byte(showCD(std))), "the central directory the model derives and the one archive/zip reads differ")
+				}
+			}
 		}
 		if impl[i].Err != "" {
 			if report {
@@ -1374,6 +1445,7 @@ func main() {
 	runQueue()
 	// 4. escaping compared directly with x/mod
 	rn.escapeChecks(r.Fork(), nEsc)
+	rn.xmodFuzz(r.Fork(), nEsc/4)
 	// 5. go mod download end to end
 	// 5a. concurrent first requests on big archives
 	rn.bigPhase(f.Seed, f.Tier)
@@ -1385,7 +1457,7 @@ func main() {
 	res.Notes = append(res.Notes, fmt.Sprintf("%d oracle-table entries supplied to the model on demand in %d rounds, %d requests re-asked (x/mod CheckPath, checkElem, Check, semver.IsValid/Compare, pseudoVersionRE, json Short)", sumConns(conns, 0), sumConns(conns, 1), sumConns(conns, 2)),
 		fmt.Sprintf("%d directories evaluated by %d parallel workers (one model process each); failures are shrunk and reported afterwards in generation order", len(queue), workers),
 		"module paths and versions containing \"_\" are excluded from the direct oracles (ambiguous on-disk naming); such directories are compared with the model only")
-	res.Rule = fmt.Sprintf("corpus, /repo's testdata/mod, %d clean generated module directories (1-3 modules x 1-4 versions: upper-case and nested paths, major suffixes, gopkg.in; semver, prerelease, pseudo, +incompatible, mismatching and invalid versions; .txt/.txtar/directory layouts; .info/.mod present or missing, nested, dot and empty files) and %d directories outside the naming discipline (two layouts at once, versions without v, underscores, undecodable names, wrong entry kinds, hand-written archives), each served by a real goproxytest.Server; per directory: list/info/mod/zip of every stored version, unknown modules/versions/extensions, a third of %d fixed malformed URLs (all in thorough), commit-hash requests, mutated URLs, then 16 concurrent first requests for each of up to 5 URLs (16 in thorough) on a fresh server and one random interleaving of the model's handlers; then 3 big modules (0.6-1.2 MB under the race detector, where loading and zipping them takes 100 ms and more: 600-member .txt archive, 250-file directory, 4 x 300 kB .txtar; 3-30 MB in thorough) each served by fresh servers hit by 16-32 first requests for info/mod/zip staggered by 0-5 ms, 3 rounds each, every response required to be 200 with the stored body, and the race detector's log read after every concurrent round; %d escape/unescape strings against x/mod; a case is one HTTP request (non-trivial unless a fixed malformed URL answered 404); distinct = distinct (directory, URL, response)", nClean, nOdd, len(malformed), nEsc)
+	res.Rule = fmt.Sprintf("corpus, /repo's testdata/mod, %d clean generated module directories (1-3 modules x 1-4 versions: upper-case and nested paths, major suffixes, gopkg.in; semver, prerelease, pseudo, +incompatible, mismatching and invalid versions; .txt/.txtar/directory layouts; .info/.mod present or missing, nested, dot and empty files) and %d directories outside the naming discipline (two layouts at once, versions without v, underscores, undecodable names, wrong entry kinds, hand-written archives), each served by a real goproxytest.Server; per directory: list/info/mod/zip of every stored version, unknown modules/versions/extensions, a third of %d fixed malformed URLs (all in thorough), commit-hash requests, mutated URLs, every zip response checked for validity (archive/zip, an independent hand-written container reader, re-serialisation) and its central directory compared with the model's; then 16 concurrent first requests for each of up to 5 URLs (16 in thorough) on a fresh server and one random interleaving of the model's handlers; then 3 big modules (0.6-1.2 MB under the race detector, where loading and zipping them takes 100 ms and more: 600-member .txt archive, 250-file directory, 4 x 300 kB .txtar; 3-30 MB in thorough) each served by fresh servers hit by 16-32 first requests for info/mod/zip staggered by 0-5 ms, 3 rounds each, every response required to be 200 with the stored body, and the race detector's log read after every concurrent round; %d escape/unescape strings against x/mod; the Gallina model of x/mod (CheckPath, SplitPathVersion, checkElem, Check, semver IsValid/Canonical/Compare, the pseudo-version expression) compared with x/mod on every decision taken while answering and on a quarter as many generated near-valid paths and versions, and every sixth directory answered again from oracle tables; a case is one HTTP request (non-trivial unless a fixed malformed URL answered 404); distinct = distinct (directory, URL, response)", nClean, nOdd, len(malformed), nEsc)
 	res.Write(f.Out)
 }
 
